@@ -131,6 +131,8 @@ func (o SOp) term() gal.Term {
 		return gal.App("Ack", gal.Nat(o.I))
 	case "savebegin":
 		return "SaveBegin"
+	case "savequeue":
+		return "SaveQueue"
 	case "savewrite":
 		return gal.App("SaveWrite", gal.N(uint64(o.Vb)))
 	case "saveend":
@@ -154,9 +156,9 @@ type SOut struct {
 	Off     *SOffset `json:",omitempty"`
 	Coll    string   `json:",omitempty"`
 	TimeS   uint64
-	Dump    map[uint16]SDoc `json:",omitempty"`
-	Dirty   []uint16        `json:",omitempty"`
-	Name    string          `json:",omitempty"`
+	Dump    map[uint16]SDoc      `json:",omitempty"`
+	Dirty   []uint16             `json:",omitempty"`
+	Name    string               `json:",omitempty"`
 	ObsRows map[uint16][4]uint64 `json:",omitempty"`
 	OffRows map[uint16][4]uint64 `json:",omitempty"`
 	Total   uint64
@@ -284,21 +286,22 @@ func (c SCfg) term() gal.Term {
 // ---- driver ----
 
 type SDriver struct {
-	Cfg      SCfg
-	cfg      *config.Dcp
-	Client   *fakes.StreamClient
-	Store    *fakes.Store
-	Cons     *fakes.Consumer
-	Disc     *fakes.Discovery
-	Hand     *fakes.Handler
-	Stream   stream.Stream
-	stopCh   chan struct{}
-	stopSeen bool
-	saveDone chan struct{}
-	SerialVersion bool // server older than 5.5.0
-	sent     map[uint64]interface{} // Rest id -> the gocbcore event sent
-	Faith    []string               // field-faithfulness complaints (C03 monitor)
-	MaxVb    uint16
+	Cfg           SCfg
+	cfg           *config.Dcp
+	Client        *fakes.StreamClient
+	Store         *fakes.Store
+	Cons          *fakes.Consumer
+	Disc          *fakes.Discovery
+	Hand          *fakes.Handler
+	Stream        stream.Stream
+	stopCh        chan struct{}
+	stopSeen      bool
+	saveDone      chan struct{}
+	queuedDone    []chan struct{}        // Save() calls waiting for the save lock
+	SerialVersion bool                   // server older than 5.5.0
+	sent          map[uint64]interface{} // Rest id -> the gocbcore event sent
+	Faith         []string               // field-faithfulness complaints (C03 monitor)
+	MaxVb         uint16
 }
 
 func NewSDriver(c SCfg, initial map[uint16]SDoc) *SDriver {
@@ -590,21 +593,23 @@ func (d *SDriver) Exec(op SOp) (outs []SOut) {
 		go func() { d.Stream.Save(); close(done) }()
 		select {
 		case call := <-d.Store.Entered:
-			o := SOut{Kind: "metasave", Dump: map[uint16]SDoc{}}
-			for vb, doc := range call.Dump {
-				o.Dump[vb] = SDoc{UUID: doc.Checkpoint.VbUUID, Seq: doc.Checkpoint.SeqNo, Start: doc.Checkpoint.Snapshot.StartSeqNo, End: doc.Checkpoint.Snapshot.EndSeqNo}
-			}
-			for vb, dirt := range call.Dirty {
-				if dirt {
-					o.Dirty = append(o.Dirty, vb)
-				}
-			}
-			sort.Slice(o.Dirty, func(i, j int) bool { return o.Dirty[i] < o.Dirty[j] })
-			outs = []SOut{o}
+			outs = []SOut{metaSaveOut(call)}
 		case <-done:
 			outs = []SOut{{Kind: "nosave"}}
 		case <-time.After(3 * time.Second):
 			outs = []SOut{{Kind: "ignored", Note: "Save neither returned nor reached the store"}}
+		}
+	case "savequeue":
+		if !d.Store.InFlight() {
+			return []SOut{{Kind: "ignored"}}
+		}
+		done := make(chan struct{})
+		go func() { d.Stream.Save(); close(done) }()
+		select {
+		case <-done:
+			outs = []SOut{{Kind: "nosave"}}
+		case <-time.After(40 * time.Millisecond):
+			d.queuedDone = append(d.queuedDone, done) // blocked behind the save lock
 		}
 	case "savewrite":
 		if !d.Store.Write(op.Vb) {
@@ -619,10 +624,26 @@ func (d *SDriver) Exec(op SOp) (outs []SOut) {
 		case <-time.After(3 * time.Second):
 			outs = []SOut{{Kind: "ignored", Note: "Save did not return"}}
 		}
+		if len(d.queuedDone) > 0 {
+			// the next waiting Save() takes the lock: it reaches the store
+			select {
+			case call := <-d.Store.Entered:
+				outs = append(outs, metaSaveOut(call))
+				d.saveDone = d.queuedDone[0]
+				d.queuedDone = d.queuedDone[1:]
+			case <-time.After(2 * time.Second):
+				outs = append(outs, SOut{Kind: "ignored", Note: "a queued Save neither reached the store"})
+			}
+		}
 	case "crash":
-		if d.Store.InFlight() {
+		for d.Store.InFlight() {
 			d.Store.Release(false)
 			<-d.saveDone
+			if len(d.queuedDone) > 0 {
+				<-d.Store.Entered
+				d.saveDone = d.queuedDone[0]
+				d.queuedDone = d.queuedDone[1:]
+			}
 		}
 		d.fresh()
 	case "scrape":
@@ -659,6 +680,20 @@ func (d *SDriver) Exec(op SOp) (outs []SOut) {
 		outs = append(outs, d.checkStop(60*time.Millisecond)...)
 	}
 	return outs
+}
+
+func metaSaveOut(call *fakes.SaveCall) SOut {
+	o := SOut{Kind: "metasave", Dump: map[uint16]SDoc{}}
+	for vb, doc := range call.Dump {
+		o.Dump[vb] = SDoc{UUID: doc.Checkpoint.VbUUID, Seq: doc.Checkpoint.SeqNo, Start: doc.Checkpoint.Snapshot.StartSeqNo, End: doc.Checkpoint.Snapshot.EndSeqNo}
+	}
+	for vb, dirt := range call.Dirty {
+		if dirt {
+			o.Dirty = append(o.Dirty, vb)
+		}
+	}
+	sort.Slice(o.Dirty, func(i, j int) bool { return o.Dirty[i] < o.Dirty[j] })
+	return o
 }
 
 func (d *SDriver) deliver(ob couchbase.Observer, vb uint16, e *SEv) {
@@ -789,6 +824,21 @@ func (d *SDriver) scrape(high map[uint16]uint64) SOut {
 	return o
 }
 
+func (d *SDriver) drainSaves() {
+	for d.Store.InFlight() {
+		d.Store.Release(false)
+		<-d.saveDone
+		if len(d.queuedDone) > 0 {
+			select {
+			case <-d.Store.Entered:
+			case <-time.After(time.Second):
+			}
+			d.saveDone = d.queuedDone[0]
+			d.queuedDone = d.queuedDone[1:]
+		}
+	}
+}
+
 // Digest projects the real state.
 func (d *SDriver) Digest() SDigest {
 	g := SDigest{Offs: map[uint16]SOffset{}, Store: map[uint16]SDoc{}}
@@ -837,10 +887,8 @@ func RunHistory(cfg SCfg, initial map[uint16]SDoc, ops []SOp, serial bool) *SHis
 	}
 	h.Digest = d.Digest()
 	h.Faith = d.Faith
-	// let a blocked save go so that nothing leaks
-	if d.Store.InFlight() {
-		d.Store.Release(false)
-	}
+	// let blocked saves go so that nothing leaks
+	d.drainSaves()
 	return h
 }
 
